@@ -762,6 +762,8 @@ func (r *runner) generate(g *gen.G, cfg Cfg, bg bool, o genOpts) ([]Step, int, M
 	return steps, -1, nil, false
 }
 
+// shrink removes whole UNITS (a tick together with the router / sender completions issued right before it —
+// the harness discipline "every pending router submission completes before the next tick" must survive).
 func (r *runner) shrink(cfg Cfg, bg bool, steps []Step, wantPredicted bool) []Step {
 	fails := func(s []Step) bool {
 		i, info, pred := r.replayScript(cfg, bg, s)
@@ -770,18 +772,41 @@ func (r *runner) shrink(cfg Cfg, bg bool, steps []Step, wantPredicted bool) []St
 	if i, _, _ := r.replayScript(cfg, bg, steps); i >= 0 {
 		steps = steps[:i+1]
 	}
-	for chunk := len(steps) / 2; chunk >= 1; chunk /= 2 {
-		for i := len(steps) - 1 - chunk; i >= 0; i -= chunk {
-			if i+chunk > len(steps)-1 {
+	units := func(ss []Step) [][]Step {
+		var out [][]Step
+		var cur []Step
+		for _, st := range ss {
+			cur = append(cur, st)
+			if st.Op != "route" && st.Op != "send" {
+				out = append(out, cur)
+				cur = nil
+			}
+		}
+		if len(cur) > 0 {
+			out = append(out, cur)
+		}
+		return out
+	}
+	flat := func(us [][]Step) []Step {
+		var out []Step
+		for _, u := range us {
+			out = append(out, u...)
+		}
+		return out
+	}
+	us := units(steps)
+	for chunk := len(us) / 2; chunk >= 1; chunk /= 2 {
+		for i := len(us) - 1 - chunk; i >= 0; i -= chunk {
+			if i+chunk > len(us)-1 {
 				continue
 			}
-			cand := append(append([]Step{}, steps[:i]...), steps[i+chunk:]...)
-			if fails(cand) {
-				steps = cand
+			cand := append(append([][]Step{}, us[:i]...), us[i+chunk:]...)
+			if fails(flat(cand)) {
+				us = cand
 			}
 		}
 	}
-	return steps
+	return flat(us)
 }
 
 func main() {
